@@ -103,7 +103,7 @@ class Ctx:
         return res
 
     # ------------------------------------------------------------------ conformance
-    def conform(self, scen_text, tag, variant="plain", crash_props=None, call_timeout=60, chunk=4000, env=None, spec="Trace", inject=None, par=NCPU, files=None, one_per_process=False, post=None, driver="qsx", wrapper=None):
+    def conform(self, scen_text, tag, variant="plain", crash_props=None, call_timeout=60, chunk=4000, env=None, spec="Trace", inject=None, par=NCPU, files=None, one_per_process=False, post=None, driver="qsx", wrapper=None, _retry=False):
         """run scenarios (text with 'scenario <id>' blocks) on the driver, validate, collect verdicts.
         The scenario blocks are split into chunks that are executed and validated in parallel."""
         from concurrent.futures import ThreadPoolExecutor
@@ -156,6 +156,7 @@ class Ctx:
                 results = list(ex.map(work, enumerate(parts)))
         except RuntimeError as e:
             raise ToolFailure(str(e))
+        slow = []
         for part, evs, info, summ, verdicts in results:
             self.crashes += len(info["crashes"])
             self.traces += summ["cnt"].get("scenarios", 0)
@@ -178,9 +179,18 @@ class Ctx:
                     v["witness"] = inject[sid]
                 if "INCONCLUSIVE" in v["props"]:
                     self.inconclusive += 1
+                if v["event"].get("call") == "CRASH" and "timeout" in v["event"].get("why", "") and not _retry and sid in byid:
+                    slow.append(sid)          # watchdog expiry: decided by a second run with a five times longer watchdog
+                    continue
                 self.verdicts.append(v)
             if len(self.samples) < 3 and evs:
                 self.samples.append({"scenario": part[0][0], "script": part[0][1][:1200]})
+        if slow:
+            # a call that did not return within the watchdog is reported only if it does not return within 5x the time either
+            # (a loaded machine must not turn a slow solve into an alarm; real hangs stay hangs)
+            self.slow_retries = getattr(self, "slow_retries", 0) + len(set(slow))
+            self.conform("".join(byid[x] for x in dict.fromkeys(slow)), tag + "_retry", variant=variant, crash_props=crash_props, call_timeout=call_timeout * 5,
+                         chunk=1, env=env, spec=spec, inject=inject, par=par, files=None, one_per_process=True, post=post, driver=driver, wrapper=wrapper, _retry=True)
         return
 
 
